@@ -32,7 +32,10 @@ Shape(a, b, w, dc, tail, lead, trail) ==
 Shapes == { Shape(a, b, w, dc, tail, lead, trail) :
               a \in 0..8, b \in 0..8, w \in {0, 1, 4, 5}, dc \in BOOLEAN, tail \in BOOLEAN, lead \in BOOLEAN, trail \in BOOLEAN }
 Tags == { TagIPv6, <<105, 112, 118, 54, 58>>, <<73, 80, 118, 55, 58>>, <<73, 80, 118, 52, 58>>, <<102, 111, 111, 58>>, <<>>,
-          <<73, 80, 118, 54>>, <<73, 80, 118, 54, 58, 58>> }
+          <<73, 80, 118, 54>>, <<73, 80, 118, 54, 58, 58>>,
+          \* proper prefixes and extensions of the tag
+          <<73, 58>>, <<73, 80, 58>>, <<73, 80, 118, 58>>, <<105, 112, 58>>, <<58>>, <<73, 80, 118, 54, 54, 58>>, <<73, 80, 118, 54, 120, 58>>,
+          <<120, 73, 80, 118, 54, 58>>, <<73, 80, 118, 54, SP, 58>> }
 FamV6 == { Br(t \o x) : t \in Tags, x \in Shapes }
 \* bytes before '[' is not a literal at all (handled by the host-name branch); bytes after ']'
 Sfx == { <<>>, <<120>>, <<DOT>>, <<RBR>>, <<COLON>>, <<SP>>, <<RBR, 120>> }
@@ -62,7 +65,8 @@ HoleIp(t, b) ==
 FamByteIp == { HoleIp(t, b) : t \in 1..16, b \in (1..255) \ {AT} }
 \* group / octet spellings away from the obvious boundaries, in the first, a middle and the last position
 Spell == { <<48>>, <<57>>, <<97>>, <<102>>, <<65>>, <<70>>, <<102, 102, 102, 102>>, <<70, 70, 70, 70>>, <<48, 48, 48, 48>>, <<49, 50, 51, 52>>,
-           <<97, 98, 99, 100>>, <<65, 98, 67, 100>>, <<103>>, <<102, 102, 102, 102, 102>>, <<HYPHEN, 49>>, <<57, 57, 57, 57>>, <<48, 102>>, <<49, 48, 48, 48, 48>> }
+           <<97, 98, 99, 100>>, <<65, 98, 67, 100>>, <<103>>, <<48, 48, 48, 48, 49>>, <<48, 48, 48, 48, 48>>, <<48, 102, 102, 102, 102>>, <<48, 48, 48, 48, 48, 49>>,
+           <<48, 48, 48, 48, 48, 48, 48, 48, 49>>, <<102, 102, 102, 102, 102>>, <<HYPHEN, 49>>, <<57, 57, 57, 57>>, <<48, 102>>, <<49, 48, 48, 48, 48>> }
 G7 == <<49, COLON, 50, COLON, 51, COLON, 52, COLON, 53, COLON, 54, COLON, 55>>
 FamSpell == UNION { { Br(TagIPv6 \o g \o <<COLON>> \o G7), Br(TagIPv6 \o G7 \o <<COLON>> \o g),
                       Br(TagIPv6 \o <<49, COLON, 50, COLON, 51, COLON>> \o g \o <<COLON, 53, COLON, 54, COLON, 55, COLON, 56>>),
